@@ -79,11 +79,15 @@ CBegin(t) ==
   /\ UNCHANGED <<mode, slot, order, alone, ord, sord, sused, addrM, addrS, usedF, visitedD, cnt, nskip, skipSet, fmtOf, alias>>
 
 \* cleanups of test t run: its ordinals restart at 1 (C03: repeated executions, -count)
-CEnd(t) ==
+\* od: the entry order per file the contract continues with (the recorded one, or -- after parallel
+\* subtests, whose appends land in schedule order -- the observed one)
+CEndWith(t, od) ==
   /\ ord'  = [x \in DOMAIN ord |-> IF x[2] = t THEN 0 ELSE ord[x]]
   /\ sord' = [x \in DOMAIN sord |-> IF x \in Get(sused, t, {}) THEN 0 ELSE sord[x]]
   /\ sused' = Del(sused, {t})
-  /\ UNCHANGED <<mode, slot, order, alone, addrM, addrS, usedF, visitedD, cnt, nskip, ran, skipSet, fmtOf, alias>>
+  /\ order' = od
+  /\ UNCHANGED <<mode, slot, alone, addrM, addrS, usedF, visitedD, cnt, nskip, ran, skipSet, fmtOf, alias>>
+CEnd(t) == CEndWith(t, order)
 
 CSkip(t) ==
   /\ skipSet' = skipSet \cup {t}
@@ -130,8 +134,10 @@ COutcome(c) ==
 \* contract state after the call whose outcome was `out`; `seen` is the text observed in the
 \* addressed location afterwards (used only to learn the text of values go-snaps formats)
 \* spath: where the standalone file is (Paths' location, or the observed one under K8)
-CMatchAt(c, out, seen, spath) ==
-  LET v == IF c.val.known THEN c.val ELSE [c.val EXCEPT !.vl = seen] IN
+\* learn = the directory was observed right after the call (not the case between parallel siblings):
+\* only then is `seen` the text this call stored
+CMatchAtL(c, out, seen, spath, learn) ==
+  LET v == IF c.val.known THEN c.val ELSE [c.val EXCEPT !.vl = IF learn THEN seen ELSE <<>>] IN
   /\ IF Standalone(c)
      THEN /\ sord' = Put(sord, CallKey(c), CallK(c))
           /\ sused' = Put(sused, c.test, Get(sused, c.test, {}) \cup {CallKey(c)})
@@ -149,10 +155,11 @@ CMatchAt(c, out, seen, spath) ==
           /\ UNCHANGED <<sord, sused, addrS, alone, alias>>
   /\ visitedD' = visitedD \cup {DirOf(c.cfg, c.tdir)}
   /\ cnt' = IF out \in DOMAIN cnt THEN [cnt EXCEPT ![out] = @ + 1] ELSE cnt
-  /\ fmtOf' = IF ~c.val.known /\ c.val.vid # "" /\ c.val.vid \notin DOMAIN fmtOf /\ Writes(out)
+  /\ fmtOf' = IF learn /\ ~c.val.known /\ c.val.vid # "" /\ c.val.vid \notin DOMAIN fmtOf /\ Writes(out)
               THEN Put(fmtOf, c.val.vid, seen) ELSE fmtOf
   /\ UNCHANGED <<mode, nskip, ran, skipSet>>
 
+CMatchAt(c, out, seen, spath) == CMatchAtL(c, out, seen, spath, TRUE)
 CMatch(c, out, seen) == CMatchAt(c, out, seen, CallSPath(c))
 
 (***************************************************************************)
